@@ -54,6 +54,46 @@ func checkC14(P *core.Program, R *core.Report) {
 	checkProcessVesting(P, R)
 	checkVestNow(P, R)
 	checkEntryKept(P, R)
+	checkScheduleWriters(P, R)
+}
+
+// checkScheduleWriters (who-may-write): the parameters of a running schedule — its length,
+// its start and its denom — are fixed when the entry is created.  VestedSoFar is linear in
+// (height − StartBlock)/NumBlocks, so a later writer of NumBlocks or StartBlock (a cancel that
+// "keeps the release rate", a top-up that restarts the clock) changes what has been released
+// at a given height: releases stop being linear or run ahead of the schedule.  Every store
+// to these fields in consensus code goes into an entry created in the same function.
+func checkScheduleWriters(P *core.Program, R *core.Report) {
+	subjects := P.Reach(P.FindRoots().Consensus())
+	n := 0
+	for _, fn := range P.Funcs {
+		if !subjects[fn] || core.IsGeneratedOrAux(P.File(fn.Pos())) || strings.HasSuffix(P.Key(fn), ".InitGenesis") {
+			continue
+		}
+		for _, b := range fn.Blocks {
+			for _, in := range b.Instrs {
+				st, ok := in.(*ssa.Store)
+				if !ok {
+					continue
+				}
+				fa, ok := st.Addr.(*ssa.FieldAddr)
+				if !ok || core.NamedName(fa.X.Type()) != "VestingTokens" {
+					continue
+				}
+				f := core.FieldName(fa.X.Type(), fa.Field)
+				if f != "NumBlocks" && f != "StartBlock" && f != "Denom" {
+					continue
+				}
+				_, fresh := fa.X.(*ssa.Alloc)
+				n++
+				R.Add("C14-schedule-writers", P.Key(fn), "writes VestingTokens."+f, P.Pos(P.InstrPos(in)), fresh,
+					"length, start and denom of a vesting entry are written only when the entry is created (an entry allocated in the same function)")
+			}
+		}
+	}
+	if n == 0 {
+		R.Add("C14-schedule-writers", "-", "no writer of the schedule parameters found", "-", false, "expected the creating writer in ProcessTokenVesting (anchor changed)")
+	}
 }
 
 func checkVestedSoFar(P *core.Program, R *core.Report) {
@@ -139,10 +179,17 @@ func checkClaimVesting(P *core.Program, R *core.Report) {
 		R.Add("C14-claim", key, "newClaim = VestedSoFar − ClaimedAmount", P.Pos(fn.Pos()), false, "payout amount is not computed as VestedSoFar(ctx).Sub(ClaimedAmount) (anchor changed)")
 		return
 	}
+	ncArgs := newClaim.Common().Args
 	positive := func(in ssa.Instruction) bool {
 		for _, a := range ff.At(in) {
 			if a.Rel == core.LT && a.A == core.ZeroMarker && ff.Fwd(a.B) == ssa.Value(newClaim) {
 				return true
+			}
+			// the same fact spelled on the operands: claimed < vested
+			if a.Rel == core.LT && a.B != nil && len(ncArgs) == 2 && ff.Fwd(a.B) == ff.Fwd(ncArgs[0]) {
+				if _, isClaimed := fieldLoad(ff, a.A, "ClaimedAmount"); isClaimed {
+					return true
+				}
 			}
 		}
 		return false
@@ -179,16 +226,143 @@ func checkClaimVesting(P *core.Program, R *core.Report) {
 	if nSt != 1 {
 		R.Add("C14-claim", key, "ClaimedAmount store", P.Pos(fn.Pos()), false, "expected exactly one update of ClaimedAmount")
 	}
+	// the accumulator of the payout coins: the Coins.Add call that takes a payout coin, and the
+	// φs that carry it round the loop and across the guard
+	acc := map[ssa.Value]bool{}
+	for _, c := range core.Calls(fn) {
+		if core.CalleeName(c.Common()) != "Add" || len(c.Common().Args) < 2 {
+			continue
+		}
+		takes := false
+		for _, a := range c.Common().Args[1:] {
+			els, ok := core.SliceLiteral(ff.Fwd(a))
+			if !ok {
+				els = []ssa.Value{a}
+			}
+			for _, e := range els {
+				if nc, ok := ff.Fwd(e).(*ssa.Call); ok && core.CalleeName(nc.Common()) == "NewCoin" && len(nc.Common().Args) == 2 && ff.Fwd(nc.Common().Args[1]) == ssa.Value(newClaim) {
+					takes = true
+				}
+			}
+		}
+		if takes {
+			acc[c.(ssa.Value)] = true
+		}
+	}
+	for changed := true; changed; {
+		changed = false
+		for _, b := range fn.Blocks {
+			for _, in := range b.Instrs {
+				ph, ok := in.(*ssa.Phi)
+				if !ok || acc[ph] {
+					continue
+				}
+				for _, e := range ph.Edges {
+					if acc[e] || acc[ff.Fwd(e)] {
+						acc[ph] = true
+						changed = true
+					}
+				}
+			}
+		}
+	}
+	isAcc := func(v ssa.Value) bool { return v != nil && (acc[v] || acc[ff.Fwd(v)]) }
 	// the claims go to the sender
+	var sends []ssa.Instruction
 	for _, c := range core.Calls(fn) {
 		if P.EffectOf(c) != core.EffBankSend {
 			continue
 		}
-		from, to, _ := bankEnds(c)
+		from, to, coins := bankEnds(c)
 		ok := isModuleAccount(ff, from, "commitment") && ff.AllOrigins(to, signerTransparent, func(o core.Origin) bool {
 			return o.Kind == "param" && o.Name == "msg" && o.Path == ".Sender"
 		})
 		R.Add("C14-claim", key, "payout to msg.Sender", P.Pos(P.InstrPos(c)), ok, "vested tokens are paid from the commitment module to the claimer")
+		if len(acc) > 0 {
+			R.Add("C14-claim", key, "payout is the accumulated claims", P.Pos(P.InstrPos(c)), isAcc(coins),
+				"the coins sent are the very sum of the per-schedule payouts whose ClaimedAmount was advanced — not a projection of it (one denom) or another value")
+			if isAcc(coins) {
+				sends = append(sends, c)
+			}
+		}
+	}
+	// the native token is minted for exactly the native part of what is paid, once: the mint's
+	// amount is AmountOf(denom) of the accumulated claims and the mint is not repeated per entry
+	if len(acc) > 0 {
+		for _, c := range core.Calls(fn) {
+			if P.EffectOf(c) != core.EffMint {
+				continue
+			}
+			args := c.Common().Args
+			coins := ff.Fwd(args[len(args)-1])
+			okAmt := false
+			els, isLit := core.SliceLiteral(coins)
+			if isLit && len(els) == 1 {
+				if nc, ok := ff.Fwd(els[0]).(*ssa.Call); ok && core.CalleeName(nc.Common()) == "NewCoin" && len(nc.Common().Args) == 2 {
+					if ao, ok := ff.Fwd(nc.Common().Args[1]).(*ssa.Call); ok && core.CalleeName(ao.Common()) == "AmountOf" && len(ao.Common().Args) == 2 && isAcc(ao.Common().Args[0]) {
+						okAmt = true
+					}
+				}
+			}
+			if isAcc(coins) {
+				okAmt = true
+			}
+			// or a separate running sum of the native per-entry payouts: Σ newClaim over the
+			// entries whose denom is the native constant (≡ AmountOf(native) of the claims)
+			if !okAmt && isLit && len(els) == 1 {
+				if nc, ok := ff.Fwd(els[0]).(*ssa.Call); ok && core.CalleeName(nc.Common()) == "NewCoin" && len(nc.Common().Args) == 2 {
+					okAmt = nativeRunningSum(ff, nc.Common().Args[1], newClaim, map[ssa.Value]bool{})
+				}
+			}
+			_, again := core.ReachesWithout(fn, c, func(in ssa.Instruction) bool { return in == ssa.Instruction(c) }, nil)
+			why := ""
+			if again {
+				why = "the mint can be executed more than once per claim (it lies in a loop) while the payout is made once"
+			} else if !okAmt {
+				why = "the minted amount is not the native part of the accumulated claims"
+			}
+			R.Add("C14-claim", key, "mint = native part of the payout, once", P.Pos(P.InstrPos(c)), okAmt && !again,
+				"native tokens are created only for what this claim pays out. "+why)
+		}
+	}
+	// everything booked as claimed is sent: a success exit is reached without the send only
+	// where the accumulated claims are known to be empty / not positive
+	if len(acc) > 0 {
+		isSend := func(in ssa.Instruction) bool {
+			for _, s := range sends {
+				if s == in {
+					return true
+				}
+			}
+			return false
+		}
+		kinds := map[ssa.Instruction]core.ExitKind{}
+		for _, e := range ff.Exits() {
+			kinds[e.Instr] = e.Kind
+		}
+		x, esc := reachesPruned(ff, nil, func(in ssa.Instruction) bool {
+			k, ok := kinds[in]
+			return ok && (k == core.ExitSuccess || k == core.ExitBoth)
+		}, isSend, func(a *core.Atom) bool {
+			switch {
+			case (a.Rel == core.LE || a.Rel == core.EQ) && a.B == core.ZeroMarker && isAcc(a.A):
+				return true // ¬IsAllPositive / IsZero
+			case a.Rel == core.TRUE:
+				if c, ok := ff.Fwd(a.A).(*ssa.Call); ok && (core.CalleeName(c.Common()) == "Empty" || core.CalleeName(c.Common()) == "IsZero") && len(c.Common().Args) == 1 && isAcc(c.Common().Args[0]) {
+					return true
+				}
+			case a.Rel == core.FALSE:
+				if c, ok := ff.Fwd(a.A).(*ssa.Call); ok && (core.CalleeName(c.Common()) == "IsAllPositive") && len(c.Common().Args) == 1 && isAcc(c.Common().Args[0]) {
+					return true
+				}
+			}
+			return false
+		})
+		why := ""
+		if esc {
+			why = "a success exit at " + P.Pos(P.InstrPos(x)) + " is reachable without the payout although the accumulated claims may be positive"
+		}
+		R.Add("C14-claim", key, "claimed ⇒ sent", P.Pos(fn.Pos()), !esc && len(sends) > 0, "every success path on which something was booked as claimed passes the payout of the accumulated claims. "+why)
 	}
 }
 
@@ -454,6 +628,61 @@ func checkProcessVesting(P *core.Program, R *core.Report) {
 		return ok && calleeMatches(P, c, "x/commitment/keeper.Keeper.SetCommitments")
 	})
 	R.Add("C14-vest", key, "SetCommitments on every success path", P.Pos(fn.Pos()), !escapes, "the new entry must be stored")
+	// every schedule total written here is the amount put into vesting on a NEW entry, and the
+	// record that is stored is the one the Eden was deducted from (DeductClaimed returns the
+	// modified copy; storing the copy loaded before it keeps the Eden and the schedule both)
+	var deducts []ssa.Value
+	for _, c := range core.Calls(fn) {
+		if calleeMatches(P, c, "x/commitment/keeper.Keeper.DeductClaimed") || calleeMatches(P, c, "x/commitment/types.Commitments.SubClaimed") {
+			deducts = append(deducts, c.(ssa.Value))
+		}
+	}
+	for _, b := range fn.Blocks {
+		for _, in := range b.Instrs {
+			st, ok := in.(*ssa.Store)
+			if !ok {
+				continue
+			}
+			fa, ok := st.Addr.(*ssa.FieldAddr)
+			if !ok || core.NamedName(fa.X.Type()) != "VestingTokens" || core.FieldName(fa.X.Type(), fa.Field) != "TotalAmount" {
+				continue
+			}
+			_, fresh := fa.X.(*ssa.Alloc)
+			R.Add("C14-vest", key, "schedule total written", P.Pos(P.InstrPos(in)), fresh && ff.Fwd(st.Val) == amount,
+				"a vest opens a new entry whose total is the amount deducted; the total of an existing schedule is not raised here")
+		}
+	}
+	for _, c := range core.Calls(fn) {
+		if !calleeMatches(P, c, "x/commitment/keeper.Keeper.SetCommitments") {
+			continue
+		}
+		args := c.Common().Args
+		rec := args[len(args)-1]
+		// flow-sensitive: the value that reaches this call (loads are forwarded to their
+		// reaching store), every origin of which must carry the deduction
+		os := ff.Origins(rec)
+		carries := len(os) > 0
+		for _, o := range os {
+			one := false
+			for _, d := range deducts {
+				if o.Val == d {
+					one = true // result of DeductClaimed
+				}
+				if dc, ok := d.(*ssa.Call); ok && calleeMatches(P, dc, "x/commitment/types.Commitments.SubClaimed") && len(dc.Common().Args) > 0 {
+					for _, ro := range recordOrigins(ff, dc.Common().Args[0]) {
+						if ro.Val == o.Val && o.Val != nil && core.Dominates(dc, c) {
+							one = true // the record SubClaimed was called on, before this store
+						}
+					}
+				}
+			}
+			if !one {
+				carries = false
+			}
+		}
+		R.Add("C14-vest", key, "stored record carries the deduction", P.Pos(P.InstrPos(c)), carries,
+			"the commitments record stored after a vest is the one the vested Eden was deducted from")
+	}
 }
 
 func checkVestNow(P *core.Program, R *core.Report) {
@@ -720,4 +949,44 @@ func checkConfigApplied(P *core.Program, R *core.Report) {
 	if n == 0 {
 		R.Add(rule, key, "message values", P.Pos(fn.Pos()), false, "no value of the message is stored anywhere (anchor changed)")
 	}
+}
+
+// nativeRunningSum: v is a loop accumulator that starts at zero and grows only by the
+// per-entry payout `claim`, each time under a must-hold fact entry.Denom == <string constant>.
+func nativeRunningSum(ff *core.FuncFacts, v ssa.Value, claim ssa.Value, seen map[ssa.Value]bool) bool {
+	v = ff.Fwd(v)
+	if seen[v] {
+		return true
+	}
+	seen[v] = true
+	switch x := v.(type) {
+	case *ssa.Phi:
+		for _, e := range x.Edges {
+			if !nativeRunningSum(ff, e, claim, seen) {
+				return false
+			}
+		}
+		return true
+	case *ssa.Call:
+		if ff.LinOf(x).IsZero() {
+			return true // math.ZeroInt()
+		}
+		if args, call, ok := mathCall(ff, x, "Add"); ok && len(args) == 2 && ff.Fwd(args[1]) == claim {
+			denomFact := false
+			for _, a := range ff.At(call) {
+				if a.Rel != core.EQ || a.B == nil {
+					continue
+				}
+				for _, pr := range [][2]ssa.Value{{a.A, a.B}, {a.B, a.A}} {
+					if _, isDenom := fieldLoad(ff, pr[0], "Denom"); isDenom {
+						if _, isConst := constString(ff, pr[1]); isConst {
+							denomFact = true
+						}
+					}
+				}
+			}
+			return denomFact && nativeRunningSum(ff, args[0], claim, seen)
+		}
+	}
+	return false
 }
